@@ -55,6 +55,10 @@ type Event struct {
 }
 
 type Sched struct {
+	// WatchForeign: the system under test starts goroutines that reach their first yield point only later
+	// (the trigger pool's stopper, woken by a cancellation); quiescence then also requires that no goroutine
+	// executing f1 code that is still unknown to the scheduler is runnable.
+	WatchForeign bool
 	mu          sync.Mutex
 	cond        *sync.Cond
 	procs       map[int64]*Proc
@@ -201,7 +205,10 @@ var stackHdr = regexp.MustCompile(`^goroutine (\d+) \[([^\],]+)`)
 // blockedStatus reports goroutine id -> wait reason for goroutines blocked in the runtime OUTSIDE
 // this package (a goroutine waiting for the scheduler's own mutex is about to change state and
 // counts as running).
-func blockedStatus() (map[int64]string, map[int64]bool) {
+// f1Frame marks a goroutine that is executing code of the system under test (not of this harness)
+var f1Frames = [][]byte{[]byte("form3tech-oss/f1/v2/internal/"), []byte("form3tech-oss/f1/v2/pkg/")}
+
+func blockedStatus() (map[int64]string, map[int64]bool, map[int64]bool) {
 	buf := make([]byte, 1<<20)
 	for {
 		n := runtime.Stack(buf, true)
@@ -213,6 +220,7 @@ func blockedStatus() (map[int64]string, map[int64]bool) {
 	}
 	out := map[int64]string{}
 	alive := map[int64]bool{}
+	moving := map[int64]bool{} // not blocked and inside f1 code
 	for _, g := range bytes.Split(buf, []byte("\n\n")) {
 		m := stackHdr.FindSubmatch(g)
 		if m == nil {
@@ -236,8 +244,35 @@ func blockedStatus() (map[int64]string, map[int64]bool) {
 		default:
 			// running, runnable, syscall, preempted, copystack, GC ...: not blocked
 		}
+		if _, blocked := out[id]; !blocked && !bytes.Contains(g, []byte("verifharness/sched.(*Sched)")) {
+			for _, f := range f1Frames {
+				if bytes.Contains(g, f) {
+					moving[id] = true
+					break
+				}
+			}
+		}
 	}
-	return out, alive
+	return out, alive, moving
+}
+
+// foreignMoving: a goroutine of the system under test that the scheduler does not know yet (it has not reached
+// its first yield point) is runnable - e.g. the pool's stopper just woken by a cancellation. The state is not
+// quiescent until it has announced itself or blocked.
+func (s *Sched) foreignMoving(moving map[int64]bool) bool {
+	for id := range moving {
+		known := false
+		for _, p := range s.order {
+			if p.Goid == id {
+				known = true
+				break
+			}
+		}
+		if !known {
+			return true
+		}
+	}
+	return false
 }
 
 // Quiesce waits until no scheduled goroutine can run: each is at a yield point, done, or really
@@ -260,7 +295,21 @@ func (s *Sched) Quiesce() error {
 		}
 		s.mu.Unlock()
 		if nRunning == 0 && nCheck == 0 {
-			return nil
+			if !s.WatchForeign {
+				return nil
+			}
+			_, _, moving := blockedStatus()
+			s.mu.Lock()
+			fm := s.foreignMoving(moving)
+			s.mu.Unlock()
+			if !fm {
+				return nil
+			}
+			if time.Now().After(deadline) {
+				return fmt.Errorf("sched: an unregistered goroutine of the system is still running after %s: %v", s.Timeout, s.describe())
+			}
+			time.Sleep(20 * time.Microsecond)
+			continue
 		}
 		spins++
 		if nRunning > 0 && spins < 40 {
@@ -271,9 +320,12 @@ func (s *Sched) Quiesce() error {
 			time.Sleep(10 * time.Microsecond)
 			continue
 		}
-		bl, alive := blockedStatus()
+		bl, alive, moving := blockedStatus()
 		stable := true
 		s.mu.Lock()
+		if s.WatchForeign && s.foreignMoving(moving) {
+			stable = false
+		}
 		for _, p := range s.order {
 			switch p.State {
 			case Running:
